@@ -40,11 +40,13 @@ MIN_COUNTERS = {
     'quick': {'wakes_checked': 1500, 'order_pairs_checked': 200,
               'park_points_reached': 25, 'raising_tasks': 20,
               'clear_cases': 6, 'lock_owned_checks': 1500, 'move_cases': 6,
-              'moved_while_pending': 20, 'tempo_changes_from_plain_thread': 1000},
+              'moved_while_pending': 20, 'tempo_changes_from_plain_thread': 1000,
+              'map_change_cases': 12},
     'thorough': {'wakes_checked': 50000, 'order_pairs_checked': 5000,
                  'park_points_reached': 150, 'raising_tasks': 500,
                  'clear_cases': 40, 'lock_owned_checks': 50000, 'move_cases': 40,
-                 'moved_while_pending': 500, 'tempo_changes_from_plain_thread': 20000},
+                 'moved_while_pending': 500, 'tempo_changes_from_plain_thread': 20000,
+                 'map_change_cases': 300},
 }
 
 LATE_STRESS = 6.0
@@ -67,6 +69,9 @@ def plan(tier, seed):
                                max_cases=90, secs=45, hard_timeout=150))
         shards.append(dict(name='clear0', mode='rt', kind='clear', rounds=3,
                            hard_timeout=90))
+        for part in range(3):
+            shards.append(dict(name=f'mapchange{part}', mode='rt', kind='mapchange', rounds=2,
+                               part=part, parts=3, secs=40, hard_timeout=120))
     else:
         for i in range(12):
             shards.append(dict(
@@ -83,6 +88,9 @@ def plan(tier, seed):
         for i in range(4):
             shards.append(dict(name=f'clear{i}', mode='rt', kind='clear', rounds=14,
                                hard_timeout=700))
+        for part in range(3):
+            shards.append(dict(name=f'mapchange{part}', mode='rt', kind='mapchange', rounds=40,
+                               part=part, parts=3, secs=420, hard_timeout=600))
     return shards
 
 
@@ -1493,6 +1501,124 @@ def etempo_case(h, acc, rng, vid):
     clock.stop()
 
 
+def map_change_case(h, acc, rng, vid, how, who):
+    """A tempo clock sleeps on a task that is far ahead (8 beats at tempo 1);
+    its beat/second map is changed so that the task becomes due soon - by
+    `tempo = 16`, `etempo(16)` or a forward jump of `beats` - issued by `who`:
+    a plain thread, a task that SystemClock / AppClock / another TempoClock is
+    awakening, or a plain thread while SystemClock is busy with a slow task.
+    The pending task must be awakened at its new deadline, never before its beat."""
+    from sc3.base.functions import Function
+    clk = h.clk
+    clock = h.new_tempo(1.0, vid)
+    other = None
+    time.sleep(rng.choice([0.05, 0.2]))
+    woke = []
+
+    def f():
+        woke.append((h.main.elapsed_time(), clock.elapsed_beats()))
+    ahead = 8.0
+    target = clock.elapsed_beats() + ahead
+    clock.sched_abs(target, Function(f))
+    time.sleep(0.15)                    # the clock thread is asleep on it now
+    done = threading.Event()
+    err = []
+
+    def change():
+        try:
+            if how == 'tempo':
+                clock.tempo = 16.0
+            elif how == 'etempo':
+                clock.etempo(16.0)
+            else:
+                clock.beats = clock.beats + (ahead - 0.5)
+        except Exception as e:      # noqa
+            err.append(repr(e))
+        done.set()
+
+    def change_task():              # (no parameters: arguments go by count)
+        change()
+    if who == 'thread':
+        change()
+    elif who == 'thread-while-busy':
+        def slow():
+            time.sleep(0.3)
+        clk.SystemClock.sched(0, Function(slow))
+        time.sleep(0.1)
+        change()
+    else:
+        if who == 'TempoClock':
+            other = h.new_tempo(2.0, vid + 100000)
+            other.sched(0, Function(change_task))
+        else:
+            getattr(clk, who).sched(0, Function(change_task))
+        if not done.wait(5.0):
+            acc.count('map_change_not_performed')
+            clock.stop()
+            if other is not None:
+                other.stop()
+            return
+    t1 = h.main.elapsed_time()
+    b1 = clock.elapsed_beats()
+    acc.count('map_change_cases')
+    acc.count(f'map_change/{how}/from-{who}')
+    acc.case(h64(('map', how, who, vid)), nontrivial=True)
+    if err:
+        acc.violation(f'C08/map-change-raised/{how}/from-{who}', {'error': err[0]})
+    else:
+        new_tempo = 1.0 if how == 'beats' else 16.0
+        due = t1 + max(0.0, target - b1) / new_tempo
+        # the old deadline is at least 7 s away: a clock that keeps sleeping on it
+        # is not awake within 4 s (the new one is at most 0.6 s away)
+        t_end = time.time() + 4.0
+        while not woke and time.time() < t_end:
+            time.sleep(0.01)
+        if not woke:
+            if h.watch.max_oversleep > 0.5:
+                acc.count('late_ignored_starved')
+            else:
+                acc.violation(f'C08/not-woken-in-time/TempoClock/after-{how}-change/from-{who}',
+                              {'scheduled_beat': target, 'beats_after_change': b1,
+                               'due_in_s': due - t1})
+        else:
+            late = woke[0][0] - due
+            acc.maxi('max_lateness_after_map_change_s', late)
+            if woke[0][1] < target - 1e-6:
+                acc.violation('C08/early-wakeup/TempoClock',
+                              {'after': how, 'from': who, 'woke': woke[0],
+                               'scheduled_beat': target})
+            elif late > 0.8 and not h.watch.max_oversleep > 0.25:
+                acc.violation(f'C08/late-wakeup/TempoClock/after-{how}-change/from-{who}',
+                              {'late_s': late, 'scheduled_beat': target})
+    clock.stop()
+    if other is not None:
+        other.stop()
+
+
+def run_mapchange(spec, acc):
+    cfg = spec['shard']
+    seed = derive_seed(spec['seed'], 'C08', cfg['name'])
+    rng = random.Random(seed)
+    h = H()
+    h.start_hang_monitor(acc, spec)
+    combos = [(how, who) for how in ('tempo', 'etempo', 'beats')
+              for who in ('thread', 'SystemClock', 'AppClock', 'TempoClock',
+                          'thread-while-busy')]
+    random.Random(derive_seed(spec['seed'], 'C08', 'mapchange')).shuffle(combos)
+    combos = combos[cfg['part']::cfg['parts']]
+    vid = 5000 + cfg['part'] * 1000
+    t_end = time.time() + cfg['secs']
+    for rnd in range(cfg['rounds']):
+        for how, who in combos:
+            if time.time() > t_end:
+                break
+            vid += 1
+            h.watch.reset()
+            map_change_case(h, acc, rng, vid, how, who)
+    h.report_lockmon(acc)
+    acc.maxi('max_host_oversleep_s', h.watch.max_oversleep)
+
+
 def tempo_hammer_case(h, acc, rng, vid):
     """A plain thread changes the tempo of a clock (REPL style, no lock of its
     own) as fast as it can while many tasks are due on that clock: every task
@@ -1544,3 +1670,5 @@ def run_shard(spec, acc):
         run_park(spec, acc)
     elif kind == 'clear':
         run_clear(spec, acc)
+    elif kind == 'mapchange':
+        run_mapchange(spec, acc)
